@@ -120,6 +120,38 @@ pub fn decode(buf: &[u8]) -> Dec {
     }
 }
 
+/// A reader that hands out at most `max` bytes per `read` call (a legal
+/// `io::Read`: short reads are allowed anywhere, e.g. at buffer boundaries).
+struct Dribble<'a> {
+    buf: &'a [u8],
+    pos: usize,
+    max: usize,
+}
+
+impl std::io::Read for Dribble<'_> {
+    fn read(&mut self, out: &mut [u8]) -> std::io::Result<usize> {
+        let n = out.len().min(self.max).min(self.buf.len() - self.pos);
+        out[..n].copy_from_slice(&self.buf[self.pos..self.pos + n]);
+        self.pos += n;
+        Ok(n)
+    }
+}
+
+/// Decodes through a reader with the given read granularity; returns the
+/// record (model form) and the number of bytes consumed, or the error kind.
+fn decode_dribbled(buf: &[u8], max: usize) -> Result<(MRec, usize), String> {
+    let r = catch_unwind(AssertUnwindSafe(|| {
+        let mut rd = Dribble { buf, pos: 0, max };
+        let res = WALRecord::<VT>::decode(&mut rd);
+        (res, rd.pos)
+    }));
+    match r {
+        Err(p) => Err(format!("PANIC: {}", panic_msg(p))),
+        Ok((Err(e), _)) => Err(format!("{:?}", e.kind())),
+        Ok((Ok(rec), consumed)) => Ok((enc::from_real(&rec), consumed)),
+    }
+}
+
 fn hex(b: &[u8]) -> String {
     let n = b.len().min(96);
     let mut s: String = b[..n].iter().map(|x| format!("{:02x}", x)).collect();
@@ -236,6 +268,33 @@ fn check_record(rep: &Reporter, r: &MRec, thorough: bool, st: &CodecStats) {
                 format!("decode of {} followed by garbage: {:?} (record is {} bytes)", r.short(), DecShort(&other), bytes.len()),
                 &b,
             )),
+        }
+    }
+    // 2b. the result does not depend on how the reader chops the bytes up
+    //     (short reads are legal wherever a buffer boundary falls)
+    {
+        let mut b = bytes.clone();
+        b.extend_from_slice(&[0xAA; 16]);
+        for max in [1usize, 2, 3, 5, 7, 8, 9, 16, 1024] {
+            st.decodes.fetch_add(1, Ordering::Relaxed);
+            match decode_dribbled(&b, max) {
+                Ok((rec, consumed)) if rec == *r && consumed == bytes.len() => {}
+                other => {
+                    rep.report(mk(
+                        rep,
+                        "decode-depends-on-read-granularity",
+                        format!(
+                            "decode of {} ({} bytes + garbage) through a reader returning at most {} bytes per read: {:?}",
+                            r.short(),
+                            bytes.len(),
+                            max,
+                            other.map(|(x, c)| (x.short(), c))
+                        ),
+                        &b,
+                    ));
+                    break;
+                }
+            }
         }
     }
     // 3. every proper prefix is an incomplete record (lemma used by the crash model)
